@@ -132,6 +132,12 @@ CHECKS.update({
    text="Every explicit-state search state (k<=2; thorough k<=3 focused) of the 8 corpus packages and a defaults corpus (defaults of every integer width, decimal64, string, boolean, enumeration, identityref, unions, binary, YANG 1.1 leaf-list defaults, typedef defaults, defaults in list entries, choice cases and presence / plain containers) calls the generated PopulateDefaults: every previously unset defaulted leaf inside existing or instantiated containers must hold the default computed from the harness's own goyang compile, every previously set leaf is unchanged, and a tree that validated before still validates.",
    technique="explicit-state BFS over tree-building sequences; postcondition + frame + validity preservation judged against an independent goyang compile in every state", note=TREE_NOTE),
 })
+
+CHECKS.update({
+ "C25": dict(engine="genmc", cat="model_checking", sec="5/C25", quick="scripts/check_c25.sh quick", thorough="scripts/check_c25.sh thorough", replay="scripts/replay_c25.sh {path}",
+   text="Model checking of the environment answer 'Go map iteration order' inside the generators: at check time every ygot package in the dependency closure of ./generator and ./proto_generator (thorough: also goyang) is copied through an AST-guided rewrite that wraps every range operand (and reflect MapKeys) with a seam; the real generator mains then run as separate processes on 28 (thorough 109) command-line configurations (Go structs with compress/uncompressed, simple/wrapper unions, split files, path structs, protobuf output; corpus + repository schemas). Explorer: all-ascending baseline, all-descending, all-rotated, and for EVERY map-range site executed with >=2 entries a run with only that site descending and one rotated by 1 (1163 / 6951 states). Every output must be byte-identical to the baseline, and baseline and probe build must equal the uninstrumented generator's output (conformance of the instrumented build). Two plain processes of the real binary are also compared (sampling, reported separately).",
+   technique="exhaustive single-site deviation of every executed map-iteration order (controlled environment nondeterminism) on the real generator, byte-identity oracle", note="the seam controls map iteration only; other sources were scanned for statically (reflect.MapRange in ygot/render.go, two selects in goyang's lexer: listed in the evidence); generator paths the corpus does not drive through a map with >=2 entries are listed in the evidence; multi-site interactions beyond all-descending / all-rotated are not explored"),
+})
 ALL = [json.loads(l)["id"] for l in open(os.path.join(V, "properties.jsonl"))]
 NA = {
 }
@@ -141,10 +147,10 @@ for pid in ALL:
     c = CHECKS[pid]
     checks.append({
         "property_id": pid,
-        "quick_cmd": f"scripts/check.sh {pid} quick",
-        "thorough_cmd": f"scripts/check.sh {pid} thorough",
+        "quick_cmd": c.get("quick", f"scripts/check.sh {pid} quick"),
+        "thorough_cmd": c.get("thorough", f"scripts/check.sh {pid} thorough"),
         "evidence_file": f"/verif/evidence/{pid}.json",
-        "replay_cmd_template": "scripts/replay.sh {path}",
+        "replay_cmd_template": c.get("replay", "scripts/replay.sh {path}"),
         "engine": c["engine"],
         "level_claimed": {"category": c["cat"], "text": c["text"], "design_ref": "DESIGN.md section " + c["sec"]},
         "level_note": c["note"],
